@@ -300,8 +300,25 @@ def delta01 (d0 d1 : α) : α := d0 * d0 * d0 + d1 * d1
 /-- `x.signum() * |x|.powf(1/3)` -/
 def cbrtS (x : α) : α := Sgn.signum x * Transc.pow (Scalar.abs x) frac13
 
-def cS (d0 d1 : α) : α := cbrtS (d1 + Transc.sqrt (delta01 d0 d1))
-def cT (d0 d1 : α) : α := cbrtS (d1 - Transc.sqrt (delta01 d0 d1))
+/-- the cube root that does not cancel: of `delta1 + sqrt(delta_01)` when `delta1 >= 0`, of
+`delta1 - sqrt(delta_01)` otherwise (since fix 7006df58; before, both `s` and `t` were computed
+as cube roots, one of them of a cancelled difference — witness f64 cubic (0,0) (0.0001,1)
+(0.0002,2) (100,3) against the line x = 50: x(t) = 50.000238) -/
+def cBig (d0 d1 : α) : α :=
+  if d1 ≥ zero then cbrtS (d1 + Transc.sqrt (delta01 d0 d1))
+  else cbrtS (d1 - Transc.sqrt (delta01 d0 d1))
+/-- the other one, from `s * t = -delta0` (`0` when the first is `0`) -/
+def cOther (d0 d1 : α) : α :=
+  if cBig d0 d1 == zero then zero else -d0 / cBig d0 d1
+def cS (d0 d1 : α) : α := if d1 ≥ zero then cBig d0 d1 else cOther d0 d1
+def cT (d0 d1 : α) : α := if d1 ≥ zero then cOther d0 d1 else cBig d0 d1
+
+/-- `epsilon_for(max(|bn|,|cn|,|dn|))`: threshold of the repeated-root test, taken from the
+normalised polynomial (since fix 7006df58; before, the epsilon of the raw coefficients was used —
+witness f32 cubic (1260,0) (15,1000) (-1230,2000) (2520,3000) against the line x = 0 reported
+t = 0.5 although the curve stays 16.87 away) -/
+def epsN (bn cn dn : α) : α :=
+  Eps.epsilonFor (Scalar.max (Scalar.max (Scalar.abs bn) (Scalar.abs cn)) (Scalar.abs dn))
 
 /-- Cardano, `delta_01 >= 0` -/
 def cardano1 (e bn d0 d1 : α) : List α :=
@@ -319,9 +336,9 @@ def cardano3 (bn d0 d1 : α) : List α :=
    twoSqrt d0 * Transc.cos ((theta d0 d1 + four * Transc.pi) * frac13) - bn * frac13]
 
 /-- normalised cubic `x³ + bn x² + cn x + dn` -/
-def cardano (e bn cn dn : α) : List α :=
+def cardano (bn cn dn : α) : List α :=
   if delta01 (delta0 bn cn) (delta1 bn cn dn) ≥ zero
-  then cardano1 e bn (delta0 bn cn) (delta1 bn cn dn)
+  then cardano1 (epsN bn cn dn) bn (delta0 bn cn) (delta1 bn cn dn)
   else cardano3 bn (delta0 bn cn) (delta1 bn cn dn)
 
 /-- `cubic_polynomial_roots` with the epsilon already chosen -/
@@ -330,7 +347,7 @@ def rootsWith (e a b c d : α) : List α :=
     if Scalar.abs b < e then
       if Scalar.abs c < e then [] else [-d / c]
     else quadratic e b c d
-  else cardano e (b / a) (c / a) (d / a)
+  else cardano (b / a) (c / a) (d / a)
 
 /-- `utils::cubic_polynomial_roots(a, b, c, d)` -/
 def cubicPolynomialRoots (a b c d : α) : List α := rootsWith (eps a b c d) a b c d
